@@ -383,8 +383,10 @@ class C11(Check):
                 for second in ((), ('RealFaultAddressPurgeable',)):
                   # the nested record of the first fault is of each kind the tool decodes (every 8th value for the two rarer kinds)
                   for first_kind in (('RealFaultAddressInternal', 'RealFaultAddressExternal', 'RealFaultAddressSharedCache') if p1 % 8 == 7 or p1 < 8 else ('RealFaultAddressInternal',)):
-                    evs = [E.ev('MACH_vmfault', 1, (1, 2, 0, 0)), E.ev(first_kind, 0, (9, (7 << 16) | (p1 << 8) | 2, 5, 6)),
-                           E.ev('MACH_vmfault', 2, (0, 0, 0, 2)), E.ev('MACH_vmfault', 1, (1, 3, 0, 0))] + \
+                    # every other value: unrelated records of the thread logged between the nested record and the fault's END
+                    between = [E.ev('MACH_WAIT', 0, (0x10, 0, 0, 0)), E.ev('MACH_vm_page_release', 0, (1, 2, 3, 4))] if p1 % 2 else []
+                    evs = [E.ev('MACH_vmfault', 1, (1, 2, 0, 0)), E.ev(first_kind, 0, (9, (7 << 16) | (p1 << 8) | 2, 5, 6))] + between + \
+                          [E.ev('MACH_vmfault', 2, (0, 0, 0, 2)), E.ev('MACH_vmfault', 1, (1, 3, 0, 0))] + \
                           [E.ev(k, 0, (9, (7 << 16) | (0xff << 8) | 2, 5, 6)) for k in second] + [E.ev('MACH_vmfault', 2, (0, 0, 0, 2))]
                     try:
                         out = [t for t in TracesParser(E.codes(), {}, {}).feed_generator(E.restamp(evs)) if type(t).__name__ == 'MachVmfault']
